@@ -199,6 +199,17 @@ var failClasses = []failClass{
 		}
 		s.Facts.SigOK, s.Facts.ParseOK = false, false
 	}},
+	{"signed-payload-trailing-data", "urd", func(h *histCtx, s *opStep) {
+		// correctly signed, but the signed payload is a JSON object followed by more bytes: not a JSON text, hence no signed data
+		tail := fw.Pick(h.r, []string{"{}", " x", "]", "}", " {\"anchorUntil\":1}", "null", ",", "\n[]", "\x00"})
+		s.Spec.RawPayload = func(b []byte) []byte { return append(append([]byte{}, b...), tail...) }
+		s.Facts.ParseOK = false
+	}},
+	{"signed-payload-leading-data", "urd", func(h *histCtx, s *opStep) {
+		lead := fw.Pick(h.r, []string{"{}", "x ", "[", "null ", "\ufeff"})
+		s.Spec.RawPayload = func(b []byte) []byte { return append([]byte(lead), b...) }
+		s.Facts.ParseOK = false
+	}},
 	{"reveal-truncated-digest", "urd", func(h *histCtx, s *opStep) {
 		// a well-formed multihash of an allowed algorithm whose digest is a shortened prefix (down to length 0) is not the key's hash
 		d, _ := oracle.DecodeEncodedMultihash(s.Spec.Signer.Reveal(h.code))
@@ -682,6 +693,8 @@ func histPatches(h *histCtx, doc map[string]interface{}) []interface{} {
 				map[string]interface{}{"big": 9223372036854775808.0, "bigger": 1e20, "huge": 1e21, "tiny": 1e-7, "odd": 9007199254740993.0, "neg": -2.5e-8},
 				"<a&b>\u2028\u2029 \u007f \u00e9 \\u0041", []interface{}{nil, []interface{}{}, map[string]interface{}{}, -0.0},
 				// one string holding both a character that JSON encoders escape and characters outside the BMP
+				// every control character: the two-character escapes, the six-character ones with one and with two significant digits, DEL and C1
+				"\u0000\u0001\u0007\b\t\n\u000b\f\r\u000e\u000f\u0010\u001f\u007f\u0080\u009f", map[string]interface{}{"ctl\u0003name": "\u000b", "c1\u0085": "\u009f", "dir": "C:\\temp\\", "end\\": "\\"},
 				"q\"uote \U0001F600 new\nline \U00010000 & \U0010FFFF", map[string]interface{}{"na\"me\U0001F600": "v\\\U0001F601", "neg": -2.5e-7, "negbig": -1e21, "neglong": -1500000000000.0}})
 			out = append(out, gen.PJSON(map[string]interface{}{"op": "add", "path": "/" + name, "value": val}))
 			continue
